@@ -740,6 +740,11 @@ def options_readonly(ctx, rule: str, consequence: str):
                 n += 1
                 key = (f.fq, attr)
                 ok = key in OPTION_WRITES_OK
+                if not ok and attr == "sparse_solver" and f.cls is not None and f.cls.name == "SolverOptions" and norm(base) == "self" \
+                        and f.node.name.startswith("_") and not f.node.name.startswith("__"):
+                    # the confirmed write (name -> enum member of that name), moved into a private helper of SolverOptions
+                    ok = True
+                    key = ("tdgl.solver.options:SolverOptions.validate", "sparse_solver")
                 ctx.ob(rule, f"{f.qual}: `{norm(base)}.{attr} = ...` ({OPTION_WRITES_OK.get(key, 'NOT in the confirmed table')[:70]})", ok,
                        where=f.fq, construct=f"options.{attr} rewritten in {f.qual}", loc=loc(f, node),
                        message=f"{f.qual} overwrites the option `{attr}` of the user's SolverOptions (L{node.lineno}: {norm(node)[:70]})",
